@@ -323,7 +323,7 @@ def make_machine(rec, tier):
             spec = dict(spec, reg_latent=bool(reg))
             self.guarded(lambda: self.w.init_graph(spec))
 
-        @rule(i=st.integers(0, 40), mask=st.integers(1, 31), positional=st.booleans(), variant=st.sampled_from([1.0, 0.8, 0.6]))
+        @rule(i=st.integers(0, 40), mask=st.integers(1, 31), positional=st.booleans(), variant=st.sampled_from([1.0, 0.8, 0.6, 1.000001]))
         def condition(self, i, mask, positional, variant):
             self.nsteps += 1
             self.guarded(lambda: self.w.apply({"op": "condition", "i": i, "mask": mask, "positional": positional, "variant": variant}))
